@@ -43,7 +43,7 @@ func init() {
 	}
 	Props["C07"] = &PropSpec{
 		Level: "other",
-		Rules: []string{"R15", "R15p", "R16", "R13", "R14"},
+		Rules: []string{"R15", "R15p", "R16", "R13", "R14", "R06"},
 		Explanation: "Determinism clause, complete: a race-free single-goroutine Go computation is deterministic except for map iteration order, select, scheduling, time, randomness and address-dependent behaviour. R16 shows the snapping call graph (module and dependencies) has none of the latter and writes no package-level state; R15 enumerates every map range and unordered producer (maps.Keys) on that call graph and proves each commutative: per-key stores/appends/deletes with an injective key, set insertion, fresh memory, callee write effects addressed by the iteration key (bottom-up effect summaries), append-only collections whose every later use is order-insensitive (len, max, set conversion, sort before use, commutative loops, followed interprocedurally). R15p does the same below processing.ProcessFeatures. Clause 3 (reverse flag changes direction only): R13 + R14.",
 		Decided: []string{"clause 1: identical output in every process, over all map iteration orders (R15, R16)", "clause 3: the reverse flag only reverses, last (R13, R14)", "necessary condition of clause 2: every ring is normalised before use (R06 under C01)"},
 		NotDecided: []string{"clause 2 sufficiency: that winding.Order classifies every valid ring correctly (trusted library)", "float arithmetic being deterministic across platforms"},
@@ -107,7 +107,7 @@ func init() {
 	}
 	Props["C16"] = &PropSpec{
 		Level: "other",
-		Rules: []string{"R39", "R40"},
+		Rules: []string{"R39", "R40", "R15j"},
 		Explanation: "For all documents: every hand-written codec reads exactly the keys it writes, json:\"-\" fields are exactly the re-added special keys, the three CRS variants have pairwise distinct required keys and no variant writes another's (R39: decode(encode(v)) cannot change variant or lose a special key). Decoding has no unchecked type assertion, no out-of-range submatch index, no missing-key fall-through, cannot return success without validate.Struct, has the positivity/required constraints on the named fields, parses ids with strconv and returns the error, and no explicit panic is reachable from decoding in module code (R40).",
 		Decided: []string{"reader/writer key agreement and CRS variant exclusivity (R39)", "decode totality and validation (R40)"},
 		NotDecided: []string{"marshmallow / validator / defaults internals", "float formatting stability of encoding/json", "validate tags on unexported fields are never evaluated ({\"crs\":{\"wkt\":{}}} is accepted)"},
